@@ -23,3 +23,11 @@ def gen_raising(d, n, bad):
         if i == bad:
             raise KeyError("generator failed")
         yield (d, i)
+
+
+def add(a, b):
+    return a + b
+
+
+def boom(x):
+    raise RuntimeError(f"boom {x}")
